@@ -9,7 +9,7 @@ interpreter. A True verdict of DependencyTools.can_loop_be_parallelised /
 Loop.independent_iterations is refuted by two distinct iterations of the
 same loop execution touching one location with at least one write (scalars
 that every iteration unconditionally writes before reading are exempt, as
-are loop variables). Termination: the analysis runs under a 60 s CPU-time alarm.
+are loop variables). Termination: the analysis runs under a CPU-time alarm (30 s, then one retry with 300 s).
 """
 import signal
 
@@ -34,7 +34,7 @@ ASSUMPTIONS = [
     "exemption implemented as worded: a scalar whose first access in EVERY "
     "executed iteration is a write by a statement not nested in an IF / "
     "inner loop / WHILE of the loop body",
-    "termination bound 60 s of process CPU time per analysis call (normal cost: milliseconds)",
+    "termination bound: 30 s of process CPU time, retried once with 300 s, per analysis call (normal cost: milliseconds)",
 ]
 
 PROFILE = gf.make_profile(
@@ -48,7 +48,7 @@ PROFILE_NAMES = gf.make_profile(
     helpers=(0, 0), nstmts=(2, 4), array_intrinsics=False, functions=False,
     extra_int_scalars=("d_i", "d1_i", "d_j"))
 
-TIMEOUT = 60
+TIMEOUT = 30
 
 
 class Timeout(Exception):
@@ -60,12 +60,22 @@ def _alarm(signum, frame):
 
 
 def verdicts(loop):
-    """(can_loop_be_parallelised, independent_iterations) under a timeout."""
+    """(can_loop_be_parallelised, independent_iterations). A first CPU-time
+    bound of TIMEOUT seconds; if it is exceeded the analysis is repeated
+    once with a ten times larger bound, so that a slow SymPy solve is not
+    mistaken for non-termination."""
+    try:
+        return _verdicts(loop, TIMEOUT)
+    except Timeout:
+        return _verdicts(loop, TIMEOUT * 10)
+
+
+def _verdicts(loop, limit):
     from psyclone.psyir.tools import DependencyTools
     # CPU-time (user+system) timer of THIS process: independent of the
     # machine load, so a busy machine can never fake a non-termination
     old = signal.signal(signal.SIGPROF, _alarm)
-    signal.setitimer(signal.ITIMER_PROF, TIMEOUT)
+    signal.setitimer(signal.ITIMER_PROF, limit)
     try:
         one = DependencyTools().can_loop_be_parallelised(loop)
         two = loop.independent_iterations()
@@ -284,7 +294,7 @@ def run(ctx):
                 if verdict == "timeout":
                     ctx.fail("nontermination", case,
                              f"dependency analysis of loop {idx} did not "
-                             f"answer within {TIMEOUT} s")
+                             f"answer within {TIMEOUT * 10} s of CPU time")
                 elif verdict == "inconsistent":
                     ctx.fail("inconsistent", case, conflict)
                 elif verdict is True:
@@ -328,7 +338,7 @@ def replay(case):
         if idx != case["loop"]:
             continue
         if verdict == "timeout":
-            return f"analysis of loop {idx} did not terminate in {TIMEOUT} s"
+            return f"analysis of loop {idx} did not terminate in {TIMEOUT * 10} s of CPU time"
         if verdict == "inconsistent":
             return conflict
         if verdict is True and conflict:
